@@ -55,6 +55,20 @@ def _strip_calls(e, names=('np.asarray', 'np.array', 'np.asanyarray', 'list', 'i
     return e
 
 
+def _strip_copy(e):
+    """Peel copies of a freshly built array: `x.copy()`, `np.array(x)`,
+    `np.array(x, copy=True)`, `np.asarray(x)`, `np.ascontiguousarray(x)`."""
+    while True:
+        if isinstance(e, ast.Call) and isinstance(e.func, ast.Attribute) and e.func.attr == 'copy' and not e.args and not e.keywords \
+                and call_name(e) not in ('np.copy', 'copy.copy'):
+            e = e.func.value
+        elif isinstance(e, ast.Call) and call_name(e) in ('np.array', 'np.asarray', 'np.ascontiguousarray', 'np.copy') and len(e.args) == 1 \
+                and all(k.arg == 'copy' and const_value(k.value) is True for k in e.keywords):
+            e = e.args[0]
+        else:
+            return e
+
+
 def _is_full_slice(e):
     return isinstance(e, ast.Slice) and e.lower is None and e.upper is None and e.step is None
 
@@ -198,6 +212,10 @@ def _inverting(e):
     iterable / keeps the orientation; None: not recognised."""
     p = _dict_pairs(e)
     if p is None:
+        if isinstance(e, ast.Call) and call_name(e) == 'dict' and len(e.args) == 1 and not e.keywords and \
+                not isinstance(e.args[0], (ast.GeneratorExp, ast.ListComp, ast.SetComp, ast.DictComp)):
+            # dict(pairs): key = first, value = second component of every pair
+            return False, _strip_calls(e.args[0], ('list', 'tuple', 'iter'))
         return None, None
     k, v, t, it = p
     if not (isinstance(t, ast.Tuple) and len(t.elts) == 2):
@@ -210,6 +228,210 @@ def _inverting(e):
     if (u(k), u(v)) == (a, b):
         return False, it
     return None, it
+
+
+def _is_empty_dict(e):
+    return (isinstance(e, ast.Dict) and not e.keys) or \
+        (isinstance(e, ast.Call) and call_name(e) in ('dict', 'collections.OrderedDict', 'OrderedDict')
+         and not e.args and not e.keywords)
+
+
+def _loop_inverting(fn, attr):
+    """`for a, b in it: <attr>[k] = v` filling a dictionary pair by pair:
+    list of (inverting, iterable, store) - inverting as in _inverting."""
+    out = []
+    for loop in walk_local(fn):
+        if not isinstance(loop, ast.For):
+            continue
+        for s in ast.walk(loop):
+            if not (isinstance(s, ast.Assign) and len(s.targets) == 1 and isinstance(s.targets[0], ast.Subscript)
+                    and u(s.targets[0].value) == attr):
+                continue
+            t = loop.target
+            k, v = s.targets[0].slice, s.value
+            inv = None
+            if isinstance(t, ast.Tuple) and len(t.elts) == 2 and u(t.elts[0]) != u(t.elts[1]):
+                a, b = u(t.elts[0]), u(t.elts[1])
+                inv = True if (u(k), u(v)) == (b, a) else False if (u(k), u(v)) == (a, b) else None
+            elif isinstance(t, ast.Name):
+                p = t.id
+                sub = lambda i: CS('%s[%d]' % (p, i))[0]
+                inv = True if (_cx(k), _cx(v)) == (sub(1), sub(0)) else False if (_cx(k), _cx(v)) == (sub(0), sub(1)) else None
+            out.append((inv, _strip_calls(loop.iter, ('list', 'tuple', 'iter')), s))
+    return out
+
+
+_ORDER_ONLY = ('sorted', 'list', 'tuple', 'reversed', 'iter')
+
+
+def _row_source(fi, e, depth=8):
+    """The collection of pairs an expression enumerates, up to the ORDER of
+    the pairs: (`X.items()` expression, swapped) where swapped tells whether
+    every pair (a, b) of the source arrives as (b, a); None if not recognised.
+    Sees through sorted/list/tuple/reversed, named temporaries (also when
+    their definition holds a lambda sort key or they are sorted in place),
+    pair-rebuilding comprehensions and zip(X.keys(), X.values())."""
+    swapped = False
+    for _ in range(depth):
+        if isinstance(e, ast.Call) and call_name(e) in _ORDER_ONLY and e.args and \
+                all(k.arg in ('key', 'reverse') for k in e.keywords):
+            if call_name(e) == 'sorted' and len(e.args) != 1:
+                return None
+            e = e.args[0]
+            continue
+        if isinstance(e, ast.Name) and isinstance(e.ctx, ast.Load):
+            try:
+                defs = fi.defs_of_use(e)
+            except Exception:
+                return None
+            if len(defs) != 1:
+                return None
+            d = next(iter(defs))
+            v = fi.def_value(d, e.id) if d not in ('PARAM', 'UNBOUND') else None
+            if v is None:
+                return None
+            for ms in fi._mutated_in_place(e.id):
+                c = ms.value if isinstance(ms, ast.Expr) else None
+                if not (isinstance(c, ast.Call) and isinstance(c.func, ast.Attribute) and c.func.attr in ('sort', 'reverse')
+                        and isinstance(c.func.value, ast.Name) and c.func.value.id == e.id):
+                    return None     # the list is edited, not merely reordered
+            use = fi.stmt(e)
+            for m in walk_expr(v):
+                if isinstance(m, ast.Name) and isinstance(m.ctx, ast.Load) and m.id in fi.rd.locals and \
+                        fi.rd.defs_at(d, m.id) != fi.rd.defs_at(use, m.id):
+                    return None
+            e = v
+            continue
+        if isinstance(e, (ast.ListComp, ast.GeneratorExp)) and len(e.generators) == 1 and not e.generators[0].ifs \
+                and isinstance(e.elt, (ast.Tuple, ast.List)) and len(e.elt.elts) == 2:
+            g = e.generators[0]
+            x, y = u(e.elt.elts[0]), u(e.elt.elts[1])
+            if isinstance(g.target, ast.Tuple) and len(g.target.elts) == 2:
+                a, b = u(g.target.elts[0]), u(g.target.elts[1])
+            elif isinstance(g.target, ast.Name):
+                a, b = CS('%s[0]' % g.target.id, '%s[1]' % g.target.id)
+                x, y = _cx(e.elt.elts[0]), _cx(e.elt.elts[1])
+            else:
+                return None
+            if a == b:
+                return None
+            if (x, y) == (b, a):
+                swapped = not swapped
+            elif (x, y) != (a, b):
+                return None
+            e = g.iter
+            continue
+        if isinstance(e, ast.Call) and call_name(e) == 'zip' and len(e.args) == 2 and not e.keywords:
+            p, q = e.args
+            if all(isinstance(z, ast.Call) and isinstance(z.func, ast.Attribute) and not z.args and not z.keywords for z in (p, q)) \
+                    and u(p.func.value) == u(q.func.value) and {p.func.attr, q.func.attr} == {'keys', 'values'}:
+                if p.func.attr == 'values':
+                    swapped = not swapped
+                e = ast.Call(func=ast.Attribute(value=p.func.value, attr='items', ctx=ast.Load()), args=[], keywords=[])
+                continue
+            return None
+        break
+    if isinstance(e, ast.Call) and isinstance(e.func, ast.Attribute) and e.func.attr == 'items' and not e.args and not e.keywords:
+        return e, swapped
+    return None
+
+
+def _origins(fi, stmt, name, chain=()):
+    """Where the value of the variable `name` on entry to `stmt` may have
+    been produced, following plain copies `a = b` / `a, b = (c, d)` through
+    the reaching definitions: list of (site, index, value, chain).
+    site 'PARAM'/'UNBOUND', or the producing statement; value is its right
+    hand side (not a Name) or None when the name is component `index` of an
+    unpacked non-tuple value (`a, b = f(..)`); chain = the definition sites
+    passed through (the value arrives only if all of them execute)."""
+    out = []
+    for d in fi.rd.defs_at(stmt, name):
+        if d in ('PARAM', 'UNBOUND'):
+            out.append((d, None, None, chain))
+            continue
+        if any(d is c for c in chain):
+            continue
+        v = fi.def_value(d, name)
+        if isinstance(v, ast.Name):
+            out += _origins(fi, d, v.id, chain + (d,))
+        elif v is not None:
+            comp = _component(fi, d, v, chain + (d,))
+            if comp is not None:
+                out += comp
+            else:
+                out.append((d, None, v, chain + (d,)))
+        else:
+            idx = None
+            if isinstance(d, ast.Assign) and len(d.targets) == 1 and isinstance(d.targets[0], (ast.Tuple, ast.List)):
+                for i, te in enumerate(d.targets[0].elts):
+                    if isinstance(te, ast.Name) and te.id == name:
+                        idx = i
+            out.append((d, idx, None, chain + (d,)))
+    return out
+
+
+def _component(fi, stmt, ve, chain=()):
+    """`R[i]` (constant i >= 0) of a name R that holds the un-unpacked result
+    of a call: component i of that result, as _origins entries; else None."""
+    if isinstance(ve, ast.Subscript) and isinstance(ve.value, ast.Name) and isinstance(const_value(ve.slice), int) \
+            and not isinstance(const_value(ve.slice), bool) and const_value(ve.slice) >= 0:
+        o = _origins(fi, stmt, ve.value.id, chain)
+        if o and all(isinstance(v, ast.Call) for _, _, v, _ in o):
+            return [(site, const_value(ve.slice), None, ch) for site, _, _, ch in o]
+    return None
+
+
+def _value_origins(fi, stmt, ve, idx=None):
+    """_origins of the value `ve` evaluated at stmt (component idx of the
+    unpacked right-hand side of stmt when ve is None)."""
+    if ve is None:
+        return [(stmt, idx, None, ())]
+    if isinstance(ve, ast.Name):
+        return _origins(fi, stmt, ve.id)
+    comp = _component(fi, stmt, ve)
+    if comp is not None:
+        return comp
+    return [(stmt, None, ve, ())]
+
+
+def _okey(origins):
+    return {(id(site) if not isinstance(site, str) else site, idx) for site, idx, _, _ in origins}
+
+
+def _attr_stores(fn, text):
+    """Stores into the attribute spelled `text`: (stmt, value, index) - value
+    is the stored expression, or None and index = position in an unpacked
+    right-hand side."""
+    out = []
+    for s in walk_local(fn):
+        if not isinstance(s, ast.Assign):
+            continue
+        for t in s.targets:
+            if u(t) == text:
+                out.append((s, s.value, None))
+            elif isinstance(t, (ast.Tuple, ast.List)):
+                for i, te in enumerate(t.elts):
+                    if u(te) == text:
+                        if isinstance(s.value, (ast.Tuple, ast.List)) and len(s.value.elts) == len(t.elts):
+                            out.append((s, s.value.elts[i], None))
+                        else:
+                            out.append((s, None, i))
+    return out
+
+
+def _atoms_at(fi, stmts):
+    """Union of the guard atoms of several statements (None if undecidable)."""
+    out = set()
+    for s in stmts:
+        a = _guard_atoms(fi, s)
+        if a is None:
+            return None
+        out |= set(a)
+    return sorted(out)
+
+
+def _cond_text(atoms):
+    return ' and '.join(('' if p else 'not ') + a for a, p in atoms) or 'unconditional'
 
 
 # ---------------------------------------------------------------------------
@@ -483,6 +705,9 @@ def keep_chain(ck, mod, fn, fi, K, counts, labels, nsub, G, okd, redefs, node):
     for n in ('range(%s)' % nsub, 'range(%s.max() + 1)' % L, 'np.arange(%s)' % nsub, 'np.unique(%s)' % L):
         for sel in ('%s == _I' % L, '_I == %s' % L, 'np.where(%s == _I)' % L, 'np.where(%s == _I)[0]' % L):
             wforms += ['[_P[%s].sum() for _I in %s]' % (sel, n), '[sum(_P[%s]) for _I in %s]' % (sel, n)]
+    # np.bincount(labels, weights=P)[i] = sum of P over labels == i (labels are 0..n_components-1)
+    wforms += ['np.bincount(%s, weights=_P)' % L, 'np.bincount(%s, _P)' % L, 'np.bincount(%s, weights=_P, minlength=%s)' % (L, nsub),
+               'np.bincount(%s, _P, minlength=%s)' % (L, nsub), 'np.bincount(%s, _P, %s)' % (L, nsub)]
     v = classify(W, wforms, scope=scope)
     ck.decide(v, 'C11.D2.weights', mod, W, F, 'component weights: %s' % _short(W, 120),
               'component weight = sum of member weights, one entry per component',
@@ -569,12 +794,15 @@ def submatrix_rule(ck, mod, fn, fi, M, mdef, counts, kx, at, af, scope):
     rule = 'C11.D3.submatrix'
     dom = fi.cfg.dominates
     bad = 'the trimmed matrix must be counts[np.ix_(keep_states, keep_states)] (same states on both axes, original counts)'
-    ext_forms = ['%s[np.ix_(_A, _B)]' % counts, '%s[_A][:, _B]' % counts, '%s[_A, :][:, _B]' % counts, '%s[:, _B][_A]' % counts,
-                 '%s[:, _B][_A, :]' % counts]
+    # (specific forms first: `_A` would also match the tuple `rows, :`)
+    ext_forms = ['%s[np.ix_(_A, _B)]' % counts, '%s[_A, :][:, _B]' % counts, '%s[:, _B][_A, :]' % counts, '%s[_A][:, _B]' % counts,
+                 '%s[:, _B][_A]' % counts]
 
     def extraction(e, node, what):
         v = classify(e, ext_forms, scope=scope)
-        if v[0] == 'match':
+        if v[0] == 'match' and any(isinstance(v[1][k], (ast.Tuple, ast.Slice)) for k in ('_A', '_B')):
+            ck.missing(rule, 'index expressions of the extraction %s' % _short(e, 100))
+        elif v[0] == 'match':
             a, b = _cx(v[1]['_A']), _cx(v[1]['_B'])
             ck.check(a == kx and b == kx, rule, mod, node, F, what,
                      'same index vector selects rows and columns of the original counts',
@@ -582,9 +810,10 @@ def submatrix_rule(ck, mod, fn, fi, M, mdef, counts, kx, at, af, scope):
         else:
             ck.decide(v, rule, mod, node, F, what, '', bad)
     val = _xb(fi, mdef.value, af)
-    # the extraction itself defines the result
-    if classify(_strip_calls(val, ('np.array', 'np.asarray')), ext_forms)[0] == 'match':
-        extraction(_strip_calls(val, ('np.array', 'np.asarray')), mdef, u(mdef))
+    # the extraction itself defines the result (fancy indexing already yields a new array:
+    # an explicit copy around it changes nothing)
+    if classify(_strip_copy(val), ext_forms)[0] == 'match':
+        extraction(_strip_copy(val), mdef, u(mdef))
         return
     # zero matrix of the size of the keep set, filled by one store
     n_forms = ['len(%s)' % kx, '(%s).shape[0]' % kx, '(%s).size' % kx]
@@ -672,22 +901,36 @@ def unpack_rules(ck):
         m2 = ck.repo.mod(rel)
         for q, f in m2.functions.items():
             for s in walk_local(f):
-                if not (isinstance(s, ast.Assign) and isinstance(s.value, ast.Call) and
-                        (call_name(s.value) or '').split('.')[-1] == F and isinstance(s.targets[0], ast.Tuple)
-                        and len(s.targets[0].elts) == 2):
+                if not (isinstance(s, ast.Assign) and isinstance(s.value, ast.Call) and len(s.targets) == 1 and
+                        (call_name(s.value) or '').split('.')[-1] == F):
+                    continue
+                fi = finfo(m2, f)
+                if isinstance(s.targets[0], ast.Tuple) and len(s.targets[0].elts) == 2:
+                    a, b = s.targets[0].elts
+                elif isinstance(s.targets[0], ast.Name):
+                    # `r = trim_disconnected(..)`; `x = r[0]`, `y = r[1]`: the names the components are given
+                    R = s.targets[0].id
+                    comp = {}
+                    for x in walk_local(f):
+                        if isinstance(x, ast.Assign) and len(x.targets) == 1 and isinstance(x.value, ast.Subscript) and \
+                                isinstance(x.value.value, ast.Name) and x.value.value.id == R and \
+                                fi.defs_of_use(x.value.value) == {s} and type(const_value(x.value.slice)) is int and const_value(x.value.slice) in (0, 1):
+                            comp.setdefault(int(const_value(x.value.slice)), []).append(x.targets[0])
+                    if sorted(comp) != [0, 1] or any(len(v) != 1 for v in comp.values()):
+                        continue
+                    a, b = comp[0][0], comp[1][0]
+                else:
                     continue
                 n += 1
-                a, b = s.targets[0].elts
                 arg = s.value.args[0] if s.value.args else kwarg(s.value, 'counts')
                 an = u(arg) if arg is not None else None
-                fi = finfo(m2, f)
                 # role of each target: the counts replace the argument / go to the builder; the mapping is stored as mapping_
                 def used_as_matrix(t):
                     if not isinstance(t, ast.Name):
                         return False
                     for x in walk_local(f):
                         if isinstance(x, ast.Call) and x is not s.value and x.args and isinstance(x.args[0], ast.Name) \
-                                and x.args[0].id == t.id and s in fi.defs_of_use(x.args[0]) \
+                                and x.args[0].id == t.id and any(o[0] is s for o in _origins(fi, fi.stmt(x), t.id)) \
                                 and (call_name(x) or '').split('.')[-1] in ('method', 'eigenspectrum', 'eq_probs'):
                             return True
                     return False
@@ -707,71 +950,158 @@ def unpack_rules(ck):
 
 
 def fit_rules(ck):
-    """MSM.fit stores the mapping and trimmed counts iff self.trim; identity otherwise."""
+    """MSM.fit stores the mapping and trimmed counts iff self.trim; identity otherwise.
+
+    Roles: the trimming call; the stores into the public attribute
+    `self.mapping_` and where their values come from (component 0 of the
+    trimming result / a TrimMapping built in place); the matrix handed to the
+    estimator whose result becomes `self.tcounts_` (component 1 of the
+    trimming result on the trimming path, the untrimmed counts otherwise);
+    the branch conditions under which each of them executes."""
     rule = 'C11.D4.fit'
     mm = ck.repo.mod(MS)
     fit = mm.func('MSM.fit')
     ck.analysed(mm, fit)
     fi = finfo(mm, fit)
     Q = 'MSM.fit'
-    tr = [s for s in walk_local(fit) if isinstance(s, ast.Assign) and isinstance(s.value, ast.Call)
-          and (call_name(s.value) or '').split('.')[-1] == F]
+    tr = [c for c in calls_in(fit) if (call_name(c) or '').split('.')[-1] == F]
     if len(tr) != 1:
-        ck.missing(rule, 'one `... = trim_disconnected(...)` in MSM.fit (found %d)' % len(tr))
+        ck.missing(rule, 'one call of trim_disconnected in MSM.fit (found %d)' % len(tr))
         return
-    t = tr[0]
-    call = t.value
+    call = tr[0]
+    t = fi.stmt(call)
+    if not (isinstance(t, ast.Assign) and t.value is call and len(t.targets) == 1):
+        ck.missing(rule, '`... = trim_disconnected(...)` in MSM.fit: %s' % _short(t))
+        return
     arg = call.args[0] if call.args else kwarg(call, 'counts')
-    tg = t.targets[0]
     extra = [k.arg for k in call.keywords if k.arg != 'counts'] + [1] * max(0, len(call.args) - 1)
-    ok = isinstance(tg, ast.Tuple) and len(tg.elts) == 2 and u(tg.elts[0]) == 'self.mapping_' and isinstance(arg, ast.Name) \
-        and isinstance(tg.elts[1], ast.Name) and tg.elts[1].id == arg.id and not extra
-    ck.check(ok, rule, mm, t, Q, u(t),
-             'the fitted model reports the trimming mapping and uses the trimmed counts',
-             'MSM.fit must store the mapping returned by trim_disconnected (default threshold, renumbering) '
-             'and continue with the trimmed counts')
-    X = arg.id if isinstance(arg, ast.Name) else None
-    # trimming happens exactly when self.trim
-    atoms = _guard_atoms(fi, t)
+    if not isinstance(arg, ast.Name):
+        ck.missing(rule, 'matrix handed to trim_disconnected is not a variable: %s' % _short(t))
+        return
+    X = arg.id
+    xkey = _okey(_origins(fi, t, X))            # the untrimmed counts
+    bad_store = ('MSM.fit must store the mapping returned by trim_disconnected (default threshold, renumbering) '
+                 'and continue with the trimmed counts')
+
+    def kind(o):
+        site, idx, v, _ = o
+        if site is t:
+            return {0: 'trim', 1: 'counts'}.get(idx, 'other')
+        if isinstance(v, ast.Call) and call_name(v) == 'TrimMapping':
+            return 'identity'
+        return 'other'
+
+    # ---- the mapping that the model reports
+    mstores = _attr_stores(fit, 'self.mapping_')
+    trim_src, ident_src, problems = [], [], []
+    for s, ve, idx in mstores:
+        for o in _value_origins(fi, s, ve, idx):
+            k = kind(o)
+            if k == 'trim':
+                trim_src.append((s, o))
+            elif k == 'identity':
+                ident_src.append((s, o))
+            elif k == 'counts':
+                problems.append(('bad', s, 'the COUNTS returned by trim_disconnected are stored as the mapping'))
+            else:
+                problems.append(('far', s, 'origin of the stored mapping not recognised: %s' % _short(s)))
+    # ---- the matrix the model is built from
+    tcs = _attr_stores(fit, 'self.tcounts_')
+    ykey = None
+    ynode = None
+    if len(tcs) == 1:
+        s, ve, idx = tcs[0]
+        if ve is None and isinstance(s.value, ast.Name):
+            os_ = _origins(fi, s, s.value.id)
+        elif ve is None:
+            os_ = [(s, None, s.value, ())]
+        else:
+            os_ = _value_origins(fi, s, ve, idx)
+        prod = []
+        for site, _, v, _ in os_:
+            if v is None and isinstance(site, ast.Assign):
+                v = site.value
+            prod.append((site, v))
+        if len(prod) == 1 and isinstance(prod[0][1], ast.Call) and prod[0][1].args and isinstance(prod[0][1].args[0], ast.Name) \
+                and prod[0][1] is not call:
+            ynode = prod[0][1].args[0]
+            ykey = _okey(_origins(fi, prod[0][0], ynode.id))
+    flow_ok = None
+    if any(p[0] == 'bad' for p in problems):
+        flow_ok = False
+        why = next(p[2] for p in problems if p[0] == 'bad')
+    elif problems:
+        ck.missing(rule, problems[0][2])
+    elif extra:
+        flow_ok = False
+        why = 'extra arguments %s change the threshold / renumbering of the trimming' % extra
+    elif not trim_src:
+        flow_ok = False
+        why = 'the mapping returned by trim_disconnected never reaches self.mapping_'
+    elif ykey is None:
+        ck.missing(rule, 'the matrix from which self.tcounts_ is estimated (one `self.tcounts_, ... = <estimator>(<matrix>)`)')
+    elif (id(t), 0) in ykey:
+        flow_ok = False
+        why = 'the MAPPING returned by trim_disconnected is handed to the estimator'
+    elif (id(t), 1) not in ykey:
+        flow_ok = False
+        why = 'the trimmed counts returned by trim_disconnected are not what the model is estimated from (%s)' % u(ynode)
+    elif ykey - {(id(t), 1)} != xkey:
+        ck.missing(rule, 'origin of the estimator input %s besides the trimmed counts' % u(ynode))
+    else:
+        flow_ok = True
+    if flow_ok is not None:
+        ck.check(flow_ok, rule, mm, t, Q, u(t),
+                 'the fitted model reports the trimming mapping and uses the trimmed counts',
+                 bad_store + ('' if flow_ok else ': ' + why))
+    # ---- trimming happens exactly when self.trim (the call, and the arrival of its mapping in self.mapping_)
+    sites = [t] + [x for s, o in trim_src for x in (s,) + tuple(o[3])]
+    atoms = _atoms_at(fi, sites)
     if atoms is None:
         ck.missing(rule, 'condition under which MSM.fit trims')
     else:
-        atoms = sorted(set(atoms))
-        ck.check(atoms == [('self.trim', True)], rule, mm, t, Q, 'trimming condition: %s' % (
-            ' and '.join(('' if p else 'not ') + a for a, p in atoms) or 'unconditional'),
-            'the counts are trimmed iff self.trim',
-            'MSM(trim=True).fit must ALWAYS trim with trim_disconnected (and never when trim=False): any shortcut '
-            'condition makes mapping_/tcounts_ differ from the trimming result, e.g. states that are entered and '
-            'left but not strongly connected')
-    # identity mapping otherwise
-    idm = [s for s in walk_local(fit) if isinstance(s, ast.Assign) and len(s.targets) == 1 and u(s.targets[0]) == 'self.mapping_'
-           and isinstance(s.value, ast.Call) and call_name(s.value) == 'TrimMapping']
-    if len(idm) != 1 or len(idm[0].value.args) != 1:
-        ck.missing(rule, 'identity mapping `self.mapping_ = TrimMapping(...)` for trim=False (found %d)' % len(idm))
+        ck.check(atoms == [('self.trim', True)], rule, mm, t, Q, 'trimming condition: %s' % _cond_text(atoms),
+                 'the counts are trimmed iff self.trim',
+                 'MSM(trim=True).fit must ALWAYS trim with trim_disconnected (and never when trim=False): any shortcut '
+                 'condition makes mapping_/tcounts_ differ from the trimming result, e.g. states that are entered and '
+                 'left but not strongly connected')
+    # ---- identity mapping otherwise
+    idc = {id(o[0]): (s, o) for s, o in ident_src}
+    if len(idc) != 1 or len(next(iter(idc.values()))[1][2].args) != 1 or next(iter(idc.values()))[1][2].keywords:
+        ck.missing(rule, 'identity mapping `self.mapping_ = TrimMapping(...)` for trim=False (found %d)' % len(idc))
         return
-    s = idm[0]
-    e = _strip_calls(fi.expand(s.value.args[0]), ('list', 'tuple'))
+    s, o = next(iter(idc.values()))             # s: the store; o[0]: the statement that builds the mapping
+    made, tmcall = o[0], o[2]
+    e = _strip_calls(fi.expand(tmcall.args[0]), ('list', 'tuple'))
+    # names that denote the untrimmed counts where the identity mapping is built
+    same = {n.id for n in ast.walk(e) if isinstance(n, ast.Name) and _okey(_origins(fi, made, n.id)) == xkey}
     forms = []
     for r in ('range(_N)', 'np.arange(_N)'):
         forms += ['zip(%s, %s)' % (r, r), '((_I, _I) for _I in %s)' % r, '[(_I, _I) for _I in %s]' % r]
-    v = classify(e, forms, scope={X} if X else None)
-    if v[0] == 'match' and X:
-        v2 = classify(v[1]['_N'], ['%s.shape[0]' % X, '%s.shape[1]' % X], scope={X})
-        v = v2 if v2[0] != 'match' else v
-    ck.decide(v, rule, mm, s, Q, u(s), 'identity mapping when trimming is off',
-              'without trimming the mapping must be the identity over all states (zip(range(n), range(n)) with n = %s.shape[0])' % (X or 'tcounts'))
-    ga = _guard_atoms(fi, s)
+    v = classify(e, forms, scope=same or {X})
+    if v[0] == 'match':
+        v2 = classify(v[1]['_N'], ['_Z.shape[0]', '_Z.shape[1]'], scope=same or {X})
+        if v2[0] != 'match':
+            v = v2
+        elif not (isinstance(v2[1]['_Z'], ast.Name) and v2[1]['_Z'].id in same):
+            v = ('far', 0, None)
+    ck.decide(v, rule, mm, made, Q, u(made), 'identity mapping when trimming is off',
+              'without trimming the mapping must be the identity over all states (zip(range(n), range(n)) with n = %s.shape[0])' % X)
+    ga = _atoms_at(fi, [made, s] + list(o[3]))
     if ga is None:
         ck.missing(rule, 'condition under which the identity mapping is stored')
     else:
-        ga = sorted(set(ga))
-        what = 'identity mapping condition: %s' % (' and '.join(('' if p else 'not ') + a for a, p in ga) or 'unconditional')
+        what = 'identity mapping condition: %s' % _cond_text(ga)
         bad = 'the identity mapping must be the final mapping exactly when self.trim is false'
+        tstores = [ts for ts, _ in trim_src]
+        after_trim = any(fi.cfg.reachable(ts, s) and ts is not s for ts in tstores) or (fi.cfg.reachable(t, made) and not tstores)
+        before_trim = all(fi.cfg.reachable(made, ts) for ts in tstores) and bool(tstores) and fi.cfg.reachable(made, t) \
+            and not fi.cfg.reachable(t, made)
         if ga == [('self.trim', False)]:
             ck.ok(rule, mm, s, what, 'identity mapping exactly when trim is off')
-        elif not ga and fi.cfg.reachable(s, t) and not fi.cfg.reachable(t, s):
+        elif not ga and before_trim and not after_trim:
             ck.ok(rule, mm, s, what, 'identity mapping is the default, replaced by the trimming mapping when trim is on')
-        elif not ga and fi.cfg.reachable(t, s):
+        elif not ga and after_trim:
             ck.bad(rule, mm, s, Q, what, bad + ': it overwrites the mapping returned by trim_disconnected')
         elif ('self.trim', True) in ga:
             ck.bad(rule, mm, s, Q, what, bad)
@@ -787,16 +1117,27 @@ def mapping_rules(ck):
     ck.analysed(mod, init)
     tp = params(init)[1] if len(params(init)) > 1 else None
     st = [s for s in walk_local(init) if isinstance(s, ast.Assign) and u(s.targets[0]) == 'self.to_original']
+    bad_init = 'TrimMapping(transformations) takes (original, trimmed) pairs and must store to_original = {trimmed: original}'
     if len(st) != 1:
         ck.missing(rule, 'single store of self.to_original in TrimMapping.__init__ (found %d)' % len(st))
+    elif _is_empty_dict(st[0].value):
+        # filled pair by pair in a loop over the pairs
+        fills = _loop_inverting(init, 'self.to_original')
+        if len(fills) != 1 or fills[0][0] is None or u(fills[0][1]) != tp:
+            ck.missing(rule, 'construction of to_original from the pairs not recognised (%d filling stores)' % len(fills))
+        else:
+            ck.check(fills[0][0], rule, mod, fills[0][2], 'TrimMapping.__init__', u(fills[0][2]),
+                     'to_original[trimmed] = original for (original, trimmed) pairs',
+                     bad_init + ': dict(pairs) / {o: t} is keyed by the ORIGINAL ids')
     else:
-        inv, it = _inverting(st[0].value)
-        if inv is None or u(it) != tp:
+        ifi = finfo(mod, init)
+        inv, it = _inverting(ifi.expand(st[0].value))
+        if inv is None or u(_strip_calls(it, ('list', 'tuple', 'iter'))) != tp:
             ck.missing(rule, 'construction of to_original from the pairs not recognised: %s' % _short(st[0]))
         else:
             ck.check(inv, rule, mod, st[0], 'TrimMapping.__init__', u(st[0]),
                      'to_original[trimmed] = original for (original, trimmed) pairs',
-                     'TrimMapping(transformations) takes (original, trimmed) pairs and must store to_original = {trimmed: original}')
+                     bad_init + ': dict(pairs) / {o: t} is keyed by the ORIGINAL ids')
     cls = mod.classes['TrimMapping']
     getters = [f for f in cls.body if isinstance(f, ast.FunctionDef) and f.name == 'to_mapped'
                and any(u(d) == 'property' for d in f.decorator_list)]
@@ -812,8 +1153,12 @@ def mapping_rules(ck):
             inv, it = _inverting(e) if e is not None else (None, None)
             if inv is not None and it is not None and _cx(it) == 'self.to_original.items()':
                 verdicts.append(inv)
+            elif inv is False and it is not None and _cx(it) == 'self.to_original' and isinstance(e, ast.Call):
+                verdicts.append(False)      # dict(self.to_original): a copy, not the inverse
             elif e is not None and _cx(e) == C('dict(zip(self.to_original.values(), self.to_original.keys()))'):
                 verdicts.append(True)
+            elif e is not None and _cx(e) == C('dict(zip(self.to_original.keys(), self.to_original.values()))'):
+                verdicts.append(False)
             else:
                 verdicts.append(None)
         if not rs or any(x is None for x in verdicts):
@@ -831,22 +1176,27 @@ def mapping_rules(ck):
     else:
         h = wfi.expand(hdr[0].args[0])
         hv = [const_value(e) for e in h.elts] if isinstance(h, (ast.List, ast.Tuple)) else None
-        body = wfi.expand(rows[0].args[0])
-        while isinstance(body, ast.Call) and call_name(body) in ('sorted', 'list', 'tuple') and body.args:
-            body = body.args[0]
-        bt = _cx(body)
+        src = _row_source(wfi, rows[0].args[0])
         what = '%s ; %s' % (u(hdr[0]), _short(u(rows[0]), 100))
         bad = ("the CSV header is ['original', 'mapped']; rows must therefore be the items of to_mapped "
                '(original -> mapped). Writing to_original.items() stores the columns swapped and a reload '
                'returns the inverse mapping')
-        if hv == ['original', 'mapped'] and bt == 'self.to_mapped.items()':
-            ck.ok(rule + '.write', mod, rows[0], what, "rows are (original, mapped) pairs under the header ['original', 'mapped']")
-        elif hv == ['mapped', 'original'] and bt == 'self.to_original.items()':
-            ck.ok(rule + '.write', mod, rows[0], what, 'rows are (mapped, original) pairs under the matching header')
-        elif hv is not None and sorted(map(str, hv)) == ['mapped', 'original'] and bt in ('self.to_mapped.items()', 'self.to_original.items()'):
-            ck.bad(rule + '.write', mod, rows[0], 'TrimMapping.write', what, bad)
-        else:
+        # first component of every written row: 'original' for to_mapped.items() (keys are original ids) and
+        # for swapped to_original.items(); 'mapped' otherwise
+        first = None
+        if src is not None:
+            bt = _cx(src[0])
+            what += '  [rows: %s%s]' % (bt, ', components swapped' if src[1] else '')
+            if bt == 'self.to_mapped.items()':
+                first = 'mapped' if src[1] else 'original'
+            elif bt == 'self.to_original.items()':
+                first = 'original' if src[1] else 'mapped'
+        if first is None or hv is None or sorted(map(str, hv)) != ['mapped', 'original']:
             ck.missing(rule + '.write', 'header/rows of TrimMapping.write not recognised: %s' % what)
+        elif hv[0] == first:
+            ck.ok(rule + '.write', mod, rows[0], what, 'rows are (%s, %s) pairs under the matching header' % tuple(hv))
+        else:
+            ck.bad(rule + '.write', mod, rows[0], 'TrimMapping.write', what, bad)
     rd = mod.func('TrimMapping.read')
     ck.analysed(mod, rd)
     rfi = finfo(mod, rd)
